@@ -38,7 +38,7 @@ func TestCheck(t *testing.T) {
 		r.Require(r.Counter("sys_reports_sequential") >= 1000 && r.Counter("sys_reports_concurrent") >= 500, "too few system reports")
 		r.Require(r.Counter("sys_steps_overcommitted") >= 50 && r.Counter("sys_steps_near_limit") >= 50 && r.Counter("sys_limit_lowered") >= 20, "system histories did not reach the clamp region")
 		r.Require(r.Counter("sys_lapses_before_any_cleanup") >= 40 && r.Counter("sys_reports_while_an_instance_is_lapsed") >= 300, "too few reports answered while a lapsed instance was still on record")
-		r.Require(r.Counter("sys_returns") >= 20 && r.Counter("sys_instances_reclaimed") >= 50, "too few reclaimed/returning instances")
+		r.Require(r.Counter("sys_returns") >= 10 && r.Counter("sys_instances_reclaimed") >= 50, "too few reclaimed/returning instances")
 		// Histories abandoned because a cleanup step did not leave exactly the expected instances on record (0 on a tree whose
 		// reclamation works; that it works is C18's verdict, not C07's) are reported in the evidence; what is required is that
 		// enough reclaim steps WERE usable, so that the reclaim/return scenarios are not silently lost.
@@ -971,13 +971,13 @@ func (h *history) run() {
 			h.reportConcurrently(ws)
 		case x < 88:
 			h.changeLimit()
-		case x < 93:
+		case x < 92:
 			if len(h.gws) < 12 {
 				h.join()
 			}
-		case x < 96:
+		case x < 95:
 			h.leave()
-		case x < 98:
+		case x < 97:
 			h.lapse()
 		default:
 			h.comeBack()
